@@ -3,6 +3,7 @@ package nfa
 import (
 	"errors"
 	"fmt"
+	"unicode"
 
 	auto "github.com/moorara/algo/automata"
 	comb "github.com/moorara/algo/parser/combinator"
@@ -237,6 +238,12 @@ func (m *mappers) ToCharRange(r comb.Result) (comb.Result, bool) {
 		// The input syntax is correct while its semantic is incorrect
 		// We continue parsing the rest of input to find more errors
 		m.errors = errors.Join(m.errors, fmt.Errorf("invalid character range %s-%s", string(low), string(up)))
+	}
+
+	if up > unicode.MaxRune {
+		// An end point beyond the last code point is not a character (and enumerating up to it would not terminate).
+		m.errors = errors.Join(m.errors, fmt.Errorf("invalid character range %s-\\x%X", string(low), up))
+		up = low
 	}
 
 	nfa, chars := runeRangesToNFA(false, [2]rune{low, up})
